@@ -183,7 +183,8 @@ func l3Op(f []string, op string) vlib.Res {
 		// longer than its lookup). A real defect repeats; before such a verdict stands the whole case
 		// is replayed once in a fresh child.
 		if strings.HasPrefix(r.Oracle, "FAIL") && (strings.Contains(r.Oracle, "/sub-query-traffic-without-internal-debit") ||
-			strings.Contains(r.Oracle, "/sub-queries-past-internal-budget") || strings.Contains(r.Oracle, "/upstream-packet-without-debit")) {
+			strings.Contains(r.Oracle, "/sub-queries-past-internal-budget") || strings.Contains(r.Oracle, "/upstream-packet-without-debit") ||
+			strings.Contains(r.Oracle, "/failure-booked-against-healthy-authority")) {
 			fam, mode, ops := child.fam, child.mode, child.ops
 			watchdogLog(fmt.Sprintf("window-attribution verdict %q for %q of case %q: replaying the case", r.Oracle, op, ops[0]))
 			child.kill()
